@@ -89,6 +89,11 @@ pub mod implementations {
             bail!("neg requires one item on the local operating stack")
         };
 
+        // `-xs[i]`, `-obj.field`: negate the value, not the view of the slot it was read from
+        if let Primitive::HeapPrimitive(_) = val {
+            *val = val.clone().move_out_of_heap_primitive()?;
+        }
+
         val.negate()?;
 
         Ok(())
@@ -99,6 +104,10 @@ pub mod implementations {
         let Some(val) = ctx.get_last_op_item_mut() else {
             bail!("not requires one item on the local operating stack")
         };
+
+        if let Primitive::HeapPrimitive(_) = val {
+            *val = val.clone().move_out_of_heap_primitive()?;
+        }
 
         let Primitive::Bool(val) = val else {
             bail!("not can only negate booleans")
